@@ -115,6 +115,83 @@ loop(OBS, 0, modifies=["self._state.trace.failed", "self._state.trace.error"], i
     "keys(old(self._state.trace.failed)) <= keys(self._state.trace.failed)",
     "keys(old(self._state.trace.error)) <= keys(self._state.trace.error)"])
 
+# -- the filter: every assertion the verification trace reports is removed from its statement ---------------------------------
+# (assertions of one statement are pairwise different objects with pairwise unequal values: they come from an OrderedSet;
+#  `list.remove(x)` then removes exactly x.  Recorded positions index into the statement's assertion list.)
+TCM_ = "pynguin.testcase.testcase"
+klass(f"{TCM_}:TestCase", fields={"_statements": "list[Statement]"})
+klass("pynguin.testcase.execution_result:ExecutionResult", fields={"assertion_verification_trace": "AssertionVerificationTrace"})
+contract(f"{TCM_}:TestCase.statements", sig={"self": "TestCase"}, returns="list[Statement]",
+         ensures=["len(result) == len(self._statements)", "all(result[i] is self._statements[i] for i in range(len(result)))"])
+predicate("reported(t, s, a)", "(s in keys(t.failed) and a in t.failed[s]) or (s in keys(t.error) and a in t.error[s])")
+RNH = f"{AG}:AssertionGenerator.__remove_non_holding_assertions"
+# NOT PART OF THE CHECK: with the contract and the invariants below, 17 of 62 obligations (invariant preservation of the inner
+# loop over list.remove, KeyError freedom) stay undecided in z3 and cvc5 within the budget, so the function is covered by the
+# bounded part `remove-non-holding` only.  The text is kept (registered only under PYVC_EXPERIMENTAL=1) as the starting point.
+import os as _os  # noqa: E402
+_contract, _loop = contract, loop
+if not _os.environ.get("PYVC_EXPERIMENTAL"):
+    contract = loop = lambda *a, **k: None   # noqa: E731
+contract(RNH, sig={"test": "TestCase", "result": "ExecutionResult"},
+         requires=[
+             # statements are pairwise different objects, each with pairwise different assertions
+             "all(all(implies(i != j, test._statements[i] is not test._statements[j]) for j in range(len(test._statements))) "
+             "    for i in range(len(test._statements)))",
+             "all(all(all(implies(a != b, test._statements[i].assertions[a] is not test._statements[i].assertions[b]) "
+             "            for b in range(len(test._statements[i].assertions))) for a in range(len(test._statements[i].assertions))) "
+             "    for i in range(len(test._statements)))",
+             # recorded positions are positions of assertions
+             "all(all(implies(reported(result.assertion_verification_trace, i, a), 0 <= a and a < len(test._statements[i].assertions)) "
+             "        for a in range(-2, len(test._statements[i].assertions) + 2)) for i in range(len(test._statements)))",
+             "forall(lambda i, a: implies(0 <= i and i < len(test._statements) and reported(result.assertion_verification_trace, i, a), "
+             "                            0 <= a and a < len(test._statements[i].assertions)), 'int', 'int')"],
+         modifies=["Statement.assertions['*']"], raises={},
+         ensures=[
+             # C21, first clause, on the filter: nothing the trace reports stays attached
+             "all(all(implies(reported(result.assertion_verification_trace, i, a), "
+             "                not any(x is old(test._statements[i].assertions)[a] for x in test._statements[i].assertions)) "
+             "        for a in range(len(old(test._statements[i].assertions)))) for i in range(len(test._statements)))",
+             # and what stays attached was attached before
+             "all(all(any(x is y for y in old(test._statements[i].assertions)) for x in test._statements[i].assertions) "
+             "    for i in range(len(test._statements)))"])
+
+S_ = "test._statements"
+T_ = "result.assertion_verification_trace"
+GONE = ("all(all(implies(reported(" + T_ + ", k, a), not any(x is old(" + S_ + "[k].assertions)[a] for x in " + S_ + "[k].assertions)) "
+        "for a in range(len(old(" + S_ + "[k].assertions)))) for k in range({hi}))")
+SUBSET = "all(all(any(x is y for y in old(" + S_ + "[k].assertions)) for x in " + S_ + "[k].assertions) for k in range(len(" + S_ + ")))"
+UNTOUCHED = ("all(len(" + S_ + "[k].assertions) == len(old(" + S_ + "[k].assertions)) and "
+             "all(" + S_ + "[k].assertions[a] is old(" + S_ + "[k].assertions)[a] for a in range(len(" + S_ + "[k].assertions))) "
+             "for k in range({lo}, len(" + S_ + ")))")
+loop(RNH, 0, invariant=[GONE.format(hi="_i"), SUBSET, UNTOUCHED.format(lo="_i")])
+loop(RNH, 1, modifies=["statement.assertions"], invariant=[
+    # positions handled so far are gone, the others are still there (so that list.remove finds them); no duplicates arise
+    "all(not any(x is pos_to_key[_seq[q]] for x in statement.assertions) for q in range(_i))",
+    "all(any(x is pos_to_key[_seq[q]] for x in statement.assertions) for q in range(_i, len(_seq)))",
+    "all(all(implies(a != b, statement.assertions[a] is not statement.assertions[b]) for b in range(len(statement.assertions))) "
+    "    for a in range(len(statement.assertions)))",
+    "all(any(x is y for y in old(" + S_ + "[idx].assertions)) for x in statement.assertions)",
+    # an assertion that is not to be deleted stays
+    "all(implies(not (a in to_delete), any(x is old(" + S_ + "[idx].assertions)[a] for x in statement.assertions)) "
+    "    for a in range(len(old(" + S_ + "[idx].assertions))))"])
+
+contract, loop = _contract, _loop
+
+# -- the trace itself: "violated" means recorded as failed or as erroneous; merging only adds --------------------------------
+predicate("violated_in(t, s, a)", "(s in keys(t.failed) and a in t.failed[s]) or (s in keys(t.error) and a in t.error[s])")
+contract(f"{AT}:AssertionVerificationTrace.was_violated", sig={"self": "AssertionVerificationTrace", "stmt_idx": "int", "assertion_idx": "int"},
+         returns="bool", ensures=["result == violated_in(self, stmt_idx, assertion_idx)"])
+MRG = f"{AT}:AssertionVerificationTrace.merge"
+contract(MRG, sig={"self": "AssertionVerificationTrace", "other": "AssertionVerificationTrace"}, requires=["self is not other"],
+         modifies=["self.failed", "self.error"],
+         ensures=["forall(lambda s, a: violated_in(self, s, a) == (violated_in(old(self), s, a) or violated_in(other, s, a)), 'int', 'int')"])
+loop(MRG, 0, modifies=["self.failed"], invariant=[
+    "forall(lambda s, a: (s in keys(self.failed) and a in self.failed[s]) == ((s in keys(old(self.failed)) and a in old(self.failed)[s]) "
+    "       or (s in _done and a in other.failed[s])), 'int', 'int')"])
+loop(MRG, 1, modifies=["self.error"], invariant=[
+    "forall(lambda s, a: (s in keys(self.error) and a in self.error[s]) == ((s in keys(old(self.error)) and a in old(self.error)[s]) "
+    "       or (s in _done and a in other.error[s])), 'int', 'int')"])
+
 
 # ---------------------------------------------------------------------------------------------------------------
 # bounded stand-in: the mutation summary (partition of mutants, score in [0, 1], time-outs and unchecked mutants
